@@ -399,3 +399,44 @@ def budget_lemma(index):
 
 
 LEMMAS = [LemmaUnit("displayed_count_monotone", disp_lemma), LemmaUnit("line_estimate_covers_ceiling", lines_lemma), LemmaUnit("budget_composition", budget_lemma)]
+
+
+class HeaderRows(Contract):
+    """PageBreakCalculator._calculate_header_rows(text, total_width, font, font_size): at least one row and at least the number of lines the
+    heading text needs on the table width (ceil(W / total_width), W the string width at the given font and size) - the fact RowMetadata uses
+    for the heading budget (C03)."""
+    target = "pagination/core.py::PageBreakCalculator._calculate_header_rows"
+    serves = ["C03"]
+    models = [StrModel()]
+
+    def setup(self, c):
+        cls = c.cls("rtflite.pagination.core", "PageBreakCalculator")
+        c.bind("self", c.alloc(RecObj("PageBreakCalculator", {}, pyclass=cls, fresh=False)))
+        c.param("header_text", T.Str)
+        tw = c.param("total_width", T.Real)
+        c.requires("table_width_positive", tw > 0)
+        c.param("font", T.Int)
+        c.param("font_size", T.Int)
+        self._v = c.v
+
+    @property
+    def handlers(self):
+        def gsw(I, st, args, kwargs, node):
+            site = getattr(node, "lineno", None)
+            v = self._v
+            I.oblige(st, f"C03.heading_measured_at_the_given_font_and_size@L{site}",
+                     And(to_z3(norm_str(args[0])) == to_z3(v["header_text"]), to_z3(kwargs.get("font")) == to_z3(v["font"]), to_z3(kwargs.get("font_size")) == to_z3(v["font_size"])),
+                     "post", site)
+            w = z3.Real("heading_text_width")
+            st.assume(w >= 0)
+            return w
+        return {"get_string_width": gsw}
+
+    def ensures(self, c, out):
+        w, tw = z3.Real("heading_text_width"), c.v["total_width"]
+        r = to_z3(out.value)
+        return {"C03.at_least_one_row": r >= 1,
+                "C03.covers_the_lines_the_heading_needs_on_the_table_width": z3.ToReal(r) * tw >= w}
+
+
+UNITS.append(HeaderRows())
